@@ -734,8 +734,7 @@ func execMux(t *testing.T, plan *simkit.Plan) *simkit.Result {
 			}
 		}
 		verif.YieldHook = h.yield
-		verif.OrderHookUint64 = simkit.SeedOrderUint64(plan.Seed)
-		defer func() { verif.YieldHook = nil; verif.OrderHookUint64 = nil }()
+		defer func() { verif.YieldHook = nil }()
 		h.A = &side{name: "A", slots: map[int]*slot{}, backlog: int(c["backlog"]), window: int(c["window"])}
 		h.B = &side{name: "B", slots: map[int]*slot{}, backlog: int(c["backlog"]), window: int(c["window_b"])}
 		h.A.peer, h.B.peer = h.B, h.A
